@@ -121,3 +121,44 @@ func VerifLoadCdb(s *VerifCdbStore, recs []dnsdata.MapRecord) {
 		s.Add(r.Key, r.Value)
 	}
 }
+
+// VerifNewDB wraps a back end into a *DB, as Open does.
+func VerifNewDB(dbi DBI) *DB { return &DB{dbi: dbi} }
+
+// VerifDBI returns the back end of a *DB.
+func VerifDBI(d *DB) DBI { return d.dbi }
+
+// Storage layouts.
+const (
+	VerifLayoutCDB = 0 // CDB file, v1 keys
+	VerifLayoutV1  = 1 // RocksDB, v1 keys
+	VerifLayoutV2  = 2 // RocksDB, v2 (reversed, sorted) keys
+)
+
+// VerifBuildStore compiles abstract records with the real encoders into a model store of the
+// given layout and returns the real driver over it.
+func VerifBuildStore(recs []dnsdata.VerifRec, layout int) (DBI, error) {
+	codec := dnsdata.VerifNewCodec(layout != VerifLayoutCDB)
+	codec.Features.UseV2Keys = layout == VerifLayoutV2
+	var out []dnsdata.MapRecord
+	for _, r := range recs {
+		m, err := dnsdata.VerifMarshalRec(codec, r)
+		if err != nil {
+			return nil, err
+		}
+		out = append(out, m...)
+	}
+	fin, err := dnsdata.VerifFinish(codec)
+	if err != nil {
+		return nil, err
+	}
+	out = append(out, fin...)
+	if layout == VerifLayoutCDB {
+		s := &VerifCdbStore{}
+		VerifLoadCdb(s, out)
+		return VerifNewCdbDriver(s), nil
+	}
+	m := rdb.NewVerifDB()
+	VerifLoadRocks(m, out)
+	return VerifNewRdbDriver(m), nil
+}
